@@ -245,3 +245,13 @@ def model_ret(repo, func_qual: str, values: tuple):
                     if len(names) == len(values) and any("dataclass" in ast.unparse(d) for d in c2.node.decorator_list):
                         return Obj(q, dict(zip(names, values)))
     return tuple(values)
+
+
+def lazy(module: str, rule: str, why: str):
+    """A rule of another property's module, imported at call time (avoids import cycles); `why` says what it has to do with this property."""
+    def run(ctx):
+        import importlib
+        getattr(importlib.import_module(f"sa.props.{module}"), rule)(ctx)
+    run.__name__ = f"{rule}__from_{module}"
+    run.__doc__ = f"{why} (rule {rule} of {module}, imported lazily)"
+    return run
